@@ -286,6 +286,11 @@ func runLinHistory(c *ctx, table string, idx int) *linResult {
 	rng := c.r.RandN("lin/"+table, idx)
 	p := linParams{Kind: "lin", Table: table, Index: idx}
 	p.Goroutines = []int{4, 4, 6, 8, 8, 12, 16, 24, 32}[rng.IntN(9)]
+	if c.r.Quick() && p.Goroutines > 16 {
+		// the short quick-tier checker budget rarely finishes a 24/32-goroutine
+		// history on a loaded machine; crowds that large are left to thorough
+		p.Goroutines = 16
+	}
 	p.Capacity = []int{256, 1000, 1024, 4096, 20000}[rng.IntN(5)]
 	nHot := 1 + rng.IntN(4)
 	p.Filler = []int{0, 0, 1, 2, 3, 6}[rng.IntN(6)]
